@@ -31,9 +31,9 @@ type e2State struct {
 	// sortsParam[fn] = set of parameter indices the function sorts in place
 	changed bool
 	// for reporting: collected once in the final pass
-	final bool
+	final                                        bool
 	nMapRanges, nClassK, nClassM, nClassA, nDiag int
-	methodImpls map[string][]*types.Func // interface method name -> module methods
+	methodImpls                                  map[string][]*types.Func // interface method name -> module methods
 }
 
 // unKey identifies a map-ordered part of a function result: result index and the field
